@@ -43,7 +43,9 @@ func (a jsonMultiset) hashCode(options []Option) [8]byte {
 		h = append(h, v.hashCode(options))
 	}
 	sort.Sort(h)
-	b := make([]byte, 0, len(a)*8)
+	// Start with constant bytes so that a multiset (even an empty one) never
+	// hashes like a string, list or set with the same content.
+	b := []byte{0x3C, 0xD1, 0x7A, 0x0E, 0xB6, 0x45, 0x92, 0xE8} // random bytes
 	for _, c := range h {
 		b = append(b, c[:]...)
 	}
